@@ -27,6 +27,9 @@ from mirse.lib_std import Formatter, display, debug
 from mirse.model_hash import oracle_of
 
 PROP = 'C17'
+# formatting / trimming of 40-64 symbolic secret bytes: decisions about one byte at a time dominate, the engine's byte shortcut pays off
+from mirse import interp as _interp
+_interp.BYTE_SHORTCUT = True
 
 OUTCOMES = ['ok', 'signature', 'sig-anycase', 'sig-short', 'sig-long', 'sig-empty', 'expired', 'scope_region', 'arity', 'date', 'host', 'path', 'provider-sig', 'provider-foreign']
 
